@@ -58,6 +58,7 @@ typedef struct {
 
 typedef struct {
   func_t f[PG_MAXFUNC]; int nf, nmodules;
+  int order[PG_MAXFUNC], permuted; /* textual order of the functions (callers may precede their callees: forward declarations) */
   uint8_t data_init[PG_BUF];
   uint64_t shape; unsigned feat;
   int n_nodes, n_calls, n_inline_calls, n_loops, n_switch, n_irred, n_alloca, n_ovf, n_fp, n_narrow, n_multi_ret;
@@ -74,7 +75,7 @@ static node_t *pg_new (enum ntype t) {
 }
 
 /* ------------------------------------------------------------------ generator */
-typedef struct { vp_rng_t r; prog_t *p; int fidx; int budget; int depth; int nalloca; unsigned feat; int ret_emitted; } pgen_t;
+typedef struct { vp_rng_t r; prog_t *p; int fidx; int budget; int depth; int nalloca; unsigned feat; int ret_emitted; int have_last[4]; opnd_t last_mem[4]; } pgen_t;
 #define PF_NO_LREF 1
 #define PF_NO_INLINE 2
 #define PF_NO_FP 4
@@ -107,6 +108,11 @@ static opnd_t pg_mem (pgen_t *g, int vt) {
   o.kind = K_MEM; o.vt = vt;
   o.mt = vt == V_I ? it[vp_below (&g->r, 8)] : vt == V_D ? MIR_T_D : vt == V_F ? MIR_T_F : MIR_T_LD;
   int nb = 2 + (g->nalloca > 2 ? 2 : g->nalloca);
+  if (g->have_last[vt] && g->last_mem[vt].base < nb && vp_chance (&g->r, 30)) { /* the address of an earlier access again: same type, or (integers) another width over the same bytes */
+    o = g->last_mem[vt];
+    if (vt == V_I && vp_chance (&g->r, 35)) { o.mt = it[vp_below (&g->r, 8)]; }
+    return o;
+  }
   o.base = (int) vp_below (&g->r, nb);
   o.scale = 1 << vp_below (&g->r, 4);
   o.idx = -1;
@@ -117,7 +123,7 @@ static opnd_t pg_mem (pgen_t *g, int vt) {
     o.disp = (int64_t) vp_below (&g->r, PG_BUF - 120 - 16);
   } else
     o.disp = (int64_t) vp_below (&g->r, PG_BUF - 16);
-  if (o.idx < 0) o.scale = 1;
+  if (o.idx < 0) { o.scale = 1; g->last_mem[vt] = o; g->have_last[vt] = 1; } /* only index-free operands are remembered: i9 does not stay put */
   return o;
 }
 static opnd_t pg_src (pgen_t *g, int vt) {
@@ -224,8 +230,12 @@ static void pg_ctl_stmt (pgen_t *g) {
     g->depth--;
   } else if (w < 38) { /* bounded loop */
     node_t *n = pg_new (N_LOOP); if (!n) return;
-    n->n = (int) vp_range (&g->r, 1, 5); n->variant = (int) vp_below (&g->r, 2);
+    n->n = (int) vp_range (&g->r, 1, 5); n->variant = (int) vp_below (&g->r, 3);
     n->creg = PG_NI - 3 - g->depth; /* one counter register per nesting level: i7, i6, i5 */
+    if (n->variant == 2) { /* do { body } while (--c > 0 && a <rel> b): the continuation test reads loop-carried general registers */
+      static const MIR_insn_code_t lb[] = {MIR_BEQ, MIR_BNE, MIR_BLT, MIR_BLE, MIR_BGT, MIR_BGE, MIR_UBLT, MIR_UBGE, MIR_BNES, MIR_BLTS, MIR_UBGTS, MIR_BT, MIR_BFS};
+      n->code = lb[vp_below (&g->r, 13)]; n->a = pg_dst_noscratch (g, V_I); if (n->a.kind == K_MEM && n->a.idx >= 0) n->a = pg_gen_reg (g); n->d = pg_rnd_reg (g, V_I); n->b = vp_chance (&g->r, 60) ? pg_rnd_reg (g, V_I) : pg_imm_i (pg_int (g)); /* no memory operand: its index mask would be emitted before the loop */
+    }
     p->n_loops++;
     pg_emit (n);
     g->depth++;
@@ -328,7 +338,7 @@ static void pg_gen_prog (prog_t *p, uint64_t seed, long idx, unsigned feat, int 
   static const MIR_type_t nt[] = {MIR_T_I64, MIR_T_I64, MIR_T_I64, MIR_T_I8, MIR_T_U8, MIR_T_I16, MIR_T_U16, MIR_T_I32, MIR_T_U32, MIR_T_U64};
   for (int fi = 0; fi < p->nf; fi++) {
     func_t *f = &p->f[fi];
-    g->fidx = fi; g->depth = 0; g->nalloca = 0;
+    g->fidx = fi; g->depth = 0; g->nalloca = 0; memset (g->have_last, 0, sizeof g->have_last);
     f->frame_first = vp_chance (&g->r, 35); if (f->frame_first) { g->nalloca = 1; f->has_alloca = 1; p->n_alloca++; }
     f->module = (int) vp_below (&g->r, p->nmodules);
     int last = fi == p->nf - 1;
@@ -350,6 +360,9 @@ static void pg_gen_prog (prog_t *p, uint64_t seed, long idx, unsigned feat, int 
     pg_stmts (g, &f->body, g->budget);
     p->n_nodes = pg_pool_used;
   }
+  for (int i = 0; i < p->nf; i++) p->order[i] = i;
+  p->permuted = vp_chance (&g->r, 40);
+  if (p->permuted) for (int i = p->nf - 1; i > 0; i--) { int j = (int) vp_below (&g->r, (uint64_t) i + 1), x = p->order[i]; p->order[i] = p->order[j]; p->order[j] = x; }
   p->shape = vp_hash_mix (vp_hash_mix ((uint64_t) p->nf * 131 + p->n_calls * 17 + p->n_loops * 7 + p->n_switch * 5 + p->n_irred * 3 + p->n_ovf, (uint64_t) p->n_nodes), (uint64_t) p->n_fp * 1009 + p->n_alloca * 13 + p->n_narrow);
 }
 
@@ -396,10 +409,15 @@ static void pg_pnodes (MIR_context_t ctx, ptxt_t *t, const prog_t *p, int fi, co
       P (t, "\n"); pg_pnodes (ctx, t, p, fi, n->body[1]); P (t, " jmp J%d_%d\nT%d_%d:\n", fi, l, fi, l); pg_pnodes (ctx, t, p, fi, n->body[0]); P (t, "J%d_%d:\n", fi, l); break; }
     case N_LOOP: { int l = t->lab++;
       P (t, " mov i%d, %d\n", n->creg, n->n);
-      if (n->variant) P (t, "H%d_%d:\n ble X%d_%d, i%d, 0\n", fi, l, fi, l, n->creg); else P (t, "H%d_%d:\n", fi, l);
+      if (n->variant == 2) { P (t, "H%d_%d:\n mov ", fi, l); pg_popnd (t, &n->a); P (t, ", "); pg_popnd (t, &n->d); P (t, "\n"); } /* the test at the bottom reads the value the carried register had at the top */
+      else if (n->variant) P (t, "H%d_%d:\n ble X%d_%d, i%d, 0\n", fi, l, fi, l, n->creg); else P (t, "H%d_%d:\n", fi, l);
       pg_pnodes (ctx, t, p, fi, n->body[0]);
       P (t, " sub i%d, i%d, 1\n", n->creg, n->creg);
-      if (n->variant) P (t, " jmp H%d_%d\nX%d_%d:\n", fi, l, fi, l); else P (t, " bgt H%d_%d, i%d, 0\n", fi, l, n->creg);
+      if (n->variant == 2) {
+        P (t, " ble X%d_%d, i%d, 0\n %s H%d_%d, ", fi, l, n->creg, pg_lower (ctx, n->code), fi, l); pg_popnd (t, &n->a);
+        if (n->code != MIR_BT && n->code != MIR_BFS) { P (t, ", "); pg_popnd (t, &n->b); }
+        P (t, "\nX%d_%d:\n", fi, l);
+      } else if (n->variant) P (t, " jmp H%d_%d\nX%d_%d:\n", fi, l, fi, l); else P (t, " bgt H%d_%d, i%d, 0\n", fi, l, n->creg);
       break; }
     case N_SWITCH: { int l = t->lab++;
       /* selector = a mod n (unsigned): 0..n-1 */
@@ -471,7 +489,9 @@ static char *pg_print (MIR_context_t ctx, const prog_t *p) {
       pg_proto (t, f, fi, "proto");
       if (f->module != m) { int used = 0; for (int fj = fi + 1; fj < p->nf; fj++) if (p->f[fj].module == m) used = 1; if (used) P (t, "import fn%d\n", fi); }
     }
-    for (int fi = 0; fi < p->nf; fi++) {
+    if (p->permuted) for (int fi = 0; fi < p->nf; fi++) if (p->f[fi].module == m) P (t, "forward fn%d\n", fi);
+    for (int oi = 0; oi < p->nf; oi++) {
+      int fi = p->order[oi];
       const func_t *f = &p->f[fi];
       if (f->module != m) continue;
       if (f->uses_lref) P (t, "forward lrt%d\n", fi);
@@ -578,7 +598,13 @@ static void rm_nodes (rm_t *rm, int fi, rm_env_t *e, const node_t *n, int depth)
       rm_nodes (rm, fi, e, taken ? n->body[0] : n->body[1], depth); break; }
     case N_LOOP:
       e->i[n->creg] = n->n;
-      if (n->variant) { while (!e->returned && e->i[n->creg] > 0) { rm_nodes (rm, fi, e, n->body[0], depth); if (e->returned) break; e->i[n->creg] = (int64_t) ((uint64_t) e->i[n->creg] - 1); } }
+      if (n->variant == 2) {
+        for (;;) { int taken;
+          rm_seti (e, &n->a, rm_geti (e, &n->d));
+          rm_nodes (rm, fi, e, n->body[0], depth); if (e->returned) break;
+          e->i[n->creg] = (int64_t) ((uint64_t) e->i[n->creg] - 1); if (e->i[n->creg] <= 0) break;
+          sem_ibranch (n->code, rm_geti (e, &n->a), (n->code == MIR_BT || n->code == MIR_BFS) ? 0 : rm_geti (e, &n->b), &taken); if (!taken) break; }
+      } else if (n->variant) { while (!e->returned && e->i[n->creg] > 0) { rm_nodes (rm, fi, e, n->body[0], depth); if (e->returned) break; e->i[n->creg] = (int64_t) ((uint64_t) e->i[n->creg] - 1); } }
       else do { rm_nodes (rm, fi, e, n->body[0], depth); if (e->returned) break; e->i[n->creg] = (int64_t) ((uint64_t) e->i[n->creg] - 1); } while (e->i[n->creg] > 0);
       break;
     case N_SWITCH: { uint64_t sel = (uint64_t) rm_geti (e, &n->a) % (uint64_t) n->n;
